@@ -201,6 +201,36 @@ func (p *gprover) lenOf(v ssa.Value) glin {
 				return p.lenOf(x.Call.Args[pj]).add(gk(add), 1)
 			}
 		}
+	case *ssa.Extract:
+		// result k of a module function every return of which hands back, at k, a slice of one and the same
+		// constant length (made with it, or an array sliced whole)
+		if cl, ok := x.Tuple.(*ssa.Call); ok {
+			if g := cl.Call.StaticCallee(); g != nil && g.Blocks != nil && p.c.inModule(g) {
+				L, n, okAll := int64(-1), 0, true
+				gp := &gprover{c: p.c, fn: g}
+				instrs(g, func(in ssa.Instruction) {
+					rt, isRt := in.(*ssa.Return)
+					if !isRt || !okAll {
+						return
+					}
+					ops := retOperands(rt)
+					if x.Index >= len(ops) {
+						okAll = false
+						return
+					}
+					l := gp.lenOf(ops[x.Index])
+					if !l.isConst() || (L >= 0 && l.c != L) {
+						okAll = false
+						return
+					}
+					L = l.c
+					n++
+				})
+				if okAll && n > 0 && L >= 0 {
+					return gk(L)
+				}
+			}
+		}
 	case *ssa.UnOp:
 		if x.Op == token.MUL {
 			if f := p.forward(x); f != nil {
@@ -266,7 +296,15 @@ func (p *gprover) canonV(v ssa.Value) ssa.Value {
 		// every load of it sees the same value
 		if a, ok := x.X.(*ssa.IndexAddr); ok {
 			if c, ok := gConstInt(a.Index); ok {
-				if cl, isCall := a.X.(*ssa.Call); isCall && onlyRead(cl, 0) {
+				var cl ssa.Value
+				if x2, isCall := a.X.(*ssa.Call); isCall {
+					cl = x2
+				} else if ex, isEx := a.X.(*ssa.Extract); isEx {
+					if _, isCall := ex.Tuple.(*ssa.Call); isCall {
+						cl = ex
+					}
+				}
+				if cl != nil && onlyRead(cl, 0) {
 					k := fmt.Sprintf("fresh/%p/[%d]", cl, c)
 					if r, ok := p.canon[k]; ok {
 						return r
@@ -986,6 +1024,10 @@ func (p *gprover) proveD(goal glin, fs []gfact, depth int) (bool, string) {
 		for _, f := range append([]glin{}, ins...) {
 			d := f.add(n, -1)
 			if d.isConst() && d.c == 0 {
+				ins = append(ins, f.add(gk(1), -1))
+			}
+			// e != 0 is also -e != 0 (the comparison written with its operands the other way round)
+			if d = f.add(n, 1); d.isConst() && d.c == 0 {
 				ins = append(ins, f.add(gk(1), -1))
 			}
 		}
